@@ -347,6 +347,64 @@ Example C11_on_demand_nonvacuous :
   = ( Some (Plain 5), None, None, Some (Plain 7), [ ("t0", DONE); ("t1", DONE); ("t2", DONE) ] ).
 Proof. vm_compute. reflexivity. Qed.
 
+(* ---- the order given ----
+   a list of directives is carried out in the order given: running l1 ++ l2 is
+   running l1 and then l2 in the state l1 left, so a directive sees the effects
+   of ALL earlier directives of its list *)
+Theorem C11_order_given :
+  forall step l1 l2 fs lg,
+    steps step (l1 ++ l2) fs lg =
+    if h_ok (steps step l1 fs lg)
+    then steps step l2 (h_fs (steps step l1 fs lg)) (h_log (steps step l1 fs lg))
+    else steps step l1 fs lg.
+Proof. exact steps_app. Qed.
+Print Assumptions C11_order_given.
+
+(* TARBALL included: the directive unpacks the task's tarball where it stands
+   in the list; right after it every member holds its content *)
+Theorem C11_tarball_unpacked_in_place :
+  forall t d fs fs' e,
+    agent_in_step t d fs = Ok fs' e -> action_eqb (s_act d) Tarball = true ->
+    exists m, file_at (sandbox_path t ++ [tar_name t]) fs = Some (Tar m) /\
+              (NoDup (map fst m) -> forall p z, In (p, z) m -> file_at p fs' = Some (Plain z)).
+Proof. exact tarball_in_place. Qed.
+Print Assumptions C11_tarball_unpacked_in_place.
+
+(* ... so that a later transfer / copy / link / move of a member, ready in the
+   state the TARBALL directive left, is carried out: the two-directive list
+   succeeds and the follower's target holds the member's content *)
+Theorem C11_tarball_then_use :
+  forall t d d2 s g z fs fs1 e m,
+    agent_in_step t d fs = Ok fs1 e -> action_eqb (s_act d) Tarball = true ->
+    file_at (sandbox_path t ++ [tar_name t]) fs = Some (Tar m) -> NoDup (map fst m) -> In (r_comps s, z) m ->
+    complete_url (agent_ctx (t_sb t)) (s_src d2) = inr s ->
+    complete_url (agent_ctx (t_sb t)) (agent_fix_tgt (s_src d2) (s_tgt d2) fs1) = inr g ->
+    r_schema g = "file" -> In (s_act d2) staged_actions ->
+    (file_at (r_comps s) fs1 = Some (Plain z) -> ready_file s g (Plain z) fs1) ->
+    exists fs2, h_ok (steps (agent_in_step t) [d; d2] fs []) = true /\
+                h_fs (steps (agent_in_step t) [d; d2] fs []) = fs2 /\
+                file_at (r_comps g) fs2 = Some (Plain z).
+Proof. exact tarball_then_use. Qed.
+Print Assumptions C11_tarball_then_use.
+
+(* non-vacuity: TARBALL a client file into the sandbox, LINK it, COPY it to the
+   pilot sandbox, MOVE the link on -- one input list, in that order *)
+Example C11_chain_nonvacuous :
+  let '(_, fs', fin) := run_case
+    [ {| ti_uid := "t0"; ti_sb := ex_sb "t0";
+         ti_in := [ SDict (Some "client:///a.dat") (Some "task:///in/cfg.dat") (Some Tarball) false;
+                    SDict (Some "task:///in/cfg.dat") (Some "task:///cfg.lnk") (Some Link) false;
+                    SDict (Some "task:///in/cfg.dat") (Some "pilot:///shared/cfg.dat") (Some Copy) false;
+                    SDict (Some "cfg.lnk") (Some "session:///kept.dat") (Some Move) false ];
+         ti_out := []; ti_soe := false; ti_outcome := DONE; ti_exec := []; ti_ops := [] |} ] ex_fs in
+  ( file_at ["R"; "rsb"; "s1"; "p0"; "t0"; "in"; "cfg.dat"] fs',
+    file_at ["R"; "rsb"; "s1"; "p0"; "shared"; "cfg.dat"] fs',
+    file_at ["R"; "rsb"; "s1"; "kept.dat"] fs',
+    file_at ["R"; "rsb"; "s1"; "p0"; "t0"; "cfg.lnk"] fs',
+    map (fun t => last (t_pub t) DONE) fin )
+  = ( Some (Plain 1), Some (Plain 1), Some (Plain 1), None, [ DONE ] ).
+Proof. vm_compute. reflexivity. Qed.
+
 (* ---- failed tasks ---- *)
 
 (* output directives of tasks that did not end DONE and did not ask for
